@@ -115,7 +115,29 @@ impl C08 {
             Some(x) => x,
             None => {
                 let t = r.range(0, 5);
-                if r.chance(1, 10) {
+                if r.chance(1, 400) {
+                    // a few segments, one or two of them several hundred elements long
+                    ctx.class("segment_longer_than_256");
+                    let tt = t.max(1);
+                    let mut a = gen_ll(r, 4, 3, tt);
+                    let k = r.range(257, 700);
+                    let at = r.below(a.len() + 1);
+                    a.insert(at, r.vec_below(k, tt));
+                    if r.chance(1, 2) {
+                        let k2 = r.range(257, 600);
+                        a.push(r.vec_below(k2, tt));
+                    }
+                    (a, tt)
+                } else if r.chance(1, 400) {
+                    // more than a thousand short segments, the last one non-empty
+                    ctx.class("more_than_1024_segments");
+                    let tt = t.max(1);
+                    let n = r.range(1025, 1400);
+                    let mut a: LL = (0..n).map(|_| { let k = r.below(3); r.vec_below(k, tt) }).collect();
+                    let kk = r.range(1, 2);
+                    a.push(r.vec_below(kk, tt));
+                    (a, tt)
+                } else if r.chance(1, 10) {
                     // long segments (more than 16 elements)
                     ctx.class("segments_up_to_24");
                     (gen_ll(r, 5, 24, t.max(1)), t.max(1))
@@ -498,6 +520,8 @@ impl Monitor for C08 {
             ("class:ctor_reject", 50),
             ("class:operations_accept", 20),
             ("class:operations_reject", 20),
+            ("class:segment_longer_than_256", 100),
+            ("class:more_than_1024_segments", 100),
             ("class:segments_up_to_24", 200),
             ("api:flatmap", 200),
             ("api:flatmap_sources", 200),
